@@ -6,7 +6,7 @@
 //     (the hypothesis of the Lean theorem sample_count_distinct_positions): first k are (i,i), then
 //     strictly increasing next >= k, replace < k;
 //   - the integer part of the sampler is compared with the Lean model (the floating point part —
-//     skip = floor(log(u)/log(1-w)) — is recomputed here from the logged draws and handed to the model);
+//     skip = floor(log(u)/log1p(-w)) — is recomputed here from the logged draws and handed to the model);
 //   - the reservoir that rSample / rSampleSlice / rSampleIterator / rSampleStream build from those
 //     decisions is compared with the Lean model (final shuffle disabled in the source);
 //   - the public API is monitored: min(k, n) items from distinct positions; Shuffle permutes.
@@ -17,6 +17,7 @@ import (
 	"context"
 	"fmt"
 	"math"
+	"math/bits"
 	"math/rand"
 	"os"
 	"sort"
@@ -166,20 +167,22 @@ func floatScript(k int, src *logRand, postFill int) string {
 	fl, in := src.Floats, src.Ints
 	w := math.Exp(math.Log(fl[0]) / float64(k))
 	fi, ii := 1, 0
+	idx := k - 1 // s.i after the fill phase and the adjustment of the first call after it
 	var parts []string
 	for j := 0; j < postFill; j++ {
 		if fi >= len(fl) {
 			break
 		}
-		skip := math.Floor(math.Log(fl[fi]) / math.Log(1-w))
+		skip := math.Floor(math.Log(fl[fi]) / math.Log1p(-w))
 		fi++
-		if math.IsInf(skip, 0) || math.IsNaN(skip) {
+		if math.IsInf(skip, 0) || math.IsNaN(skip) || skip >= float64(math.MaxInt-idx) {
 			parts = append(parts, "inf:0")
 			continue
 		}
 		if fi >= len(fl) || ii >= len(in) {
 			break
 		}
+		idx += int(skip) + 1
 		w *= math.Exp(math.Log(fl[fi]) / float64(k))
 		fi++
 		parts = append(parts, fmt.Sprintf("%d:%d", int(skip), in[ii]))
@@ -623,6 +626,65 @@ func uniformity(res *vlib.Result, variant string, n, k, T int, seed int64) {
 	}
 }
 
+// rangeCoverage (every tier, fix9b): "every such subset being equally likely ... all (n, k, seed)" for n far
+// beyond 2^31, where no frequency table over [0, n) can be kept and where the skips of Algorithm L are
+// themselves larger than 2^31. T draws of k out of n; [0, n) is cut into 16 equal parts; every part must hold
+// at least one of the T*k returned positions. For a sampler that picks every k-subset with equal probability
+// one draw misses a given part with probability C(n-n/16, k)/C(n, k) <= (15/16)^k, all T draws with
+// probability <= (15/16)^(T*k), any of the 16 parts with probability <= 16*(15/16)^(T*k): with T*k >= 2000
+// that is below 2^-182 - a true-positive-only verdict for every seed, also of the global source.
+func rangeCoverage(res *vlib.Result, variant string, n, k, T int, seed int64) {
+	r := rand.New(rand.NewSource(seed))
+	if pkgLevel(variant) {
+		rand.Seed(seed) //nolint:staticcheck
+	}
+	width := n / 16
+	if n%16 != 0 {
+		width++
+	}
+	var parts [16]int
+	max := -1
+	c := Case{Fn: "coverage:" + variant, N: n, K: k, Seed: seed, T: T}
+	pr := P{"n_bits": bits.Len64(uint64(n)), "k": k, "variant": variant}
+	for t := 0; t < T; t++ {
+		var out []int
+		pan, pv := vlib.Try(func() {
+			if variant == "RSample" {
+				out = xrand.RSample(r, n, k)
+			} else {
+				out = xrand.Sample(n, k)
+			}
+		})
+		if pan {
+			res.Fail(vlib.Failure{Source: "monitor", Kind: "xrand-sample-panic", Params: pr,
+				What: fmt.Sprintf("%s(n=%d,k=%d) seed %d trial %d panicked: %v", variant, n, k, seed, t, pv), Case: c})
+			return
+		}
+		if ok, why := distinctInRange(out, n); !ok || len(out) != k {
+			res.Fail(vlib.Failure{Source: "monitor", Kind: "xrand-sample-distinct", Params: pr,
+				What: fmt.Sprintf("%s(n=%d,k=%d) seed %d trial %d = %v: %s", variant, n, k, seed, t, out, why), Case: c})
+			return
+		}
+		for _, v := range out {
+			parts[v/width]++
+			if v > max {
+				max = v
+			}
+		}
+	}
+	res.Count("range-coverage-tests")
+	for i, cnt := range parts {
+		if cnt == 0 {
+			res.Fail(vlib.Failure{Source: "monitor", Kind: "xrand-sample-range-not-covered", Params: pr,
+				What: fmt.Sprintf("%s(n=%d,k=%d), %d draws from seed %d: none of the %d returned positions lies in [%d, %d), part %d of 16 equal parts of [0, n) "+
+					"(positions per part %v, largest position returned %d); a uniform sampler does that with probability below 2^-180",
+					variant, n, k, T, seed, T*k, i*width, (i+1)*width, i, parts, max),
+				Case: c})
+			return
+		}
+	}
+}
+
 func pkgLevel(variant string) bool { return !strings.HasPrefix(variant, "R") }
 
 var pkgVariants = []string{"Sample", "SampleSlice", "SampleIterator", "SampleStream"}
@@ -875,6 +937,18 @@ func main() {
 			fmt.Println("monitor: uniform within the threshold", r2.Extra)
 			return
 		}
+		if strings.HasPrefix(c.Fn, "coverage:") {
+			r2 := vlib.NewResult("C19", "")
+			rangeCoverage(r2, strings.TrimPrefix(c.Fn, "coverage:"), c.N, c.K, c.T, c.Seed)
+			for _, f := range r2.Failures {
+				fmt.Println("monitor:", f.Kind, f.What)
+			}
+			if len(r2.Failures) > 0 {
+				os.Exit(1)
+			}
+			fmt.Println("monitor: every sixteenth of [0, n) holds a returned position")
+			return
+		}
 		if strings.HasPrefix(c.Fn, "subsets:") || strings.HasPrefix(c.Fn, "perms:") {
 			r2 := vlib.NewResult("C19", "")
 			if strings.HasPrefix(c.Fn, "subsets:") {
@@ -952,6 +1026,17 @@ func main() {
 		allSubsetsOccur(res, v, 4, 2, 900, int64(env.Seed)*100+int64(i))
 		allSubsetsOccur(res, v, 5, 3, 1500, int64(env.Seed)*100+50+int64(i))
 	}
+	// n beyond 2^31: every sixteenth of [0, n) is reached (rangeCoverage)
+	for i, c := range []struct{ n, k, T int }{
+		{1 << 40, 1, 2000}, {1 << 40, 4, 500}, {1 << 33, 1, 2000}, {1<<32 + 12345, 3, 700}, {1 << 36, 16, 130}, {1 << 48, 2, 1000},
+		// n >= 2^58: with log(1 - w) instead of log1p(-w) the skip became infinite once w < 2^-53 and no position
+		// beyond about k * 2^57 was ever returned (D22, repaired: known_findings.jsonl, fixed)
+		{1 << 62, 1, 2000}, {math.MaxInt, 2, 1000},
+	} {
+		rangeCoverage(res, "RSample", c.n, c.k, c.T, int64(env.Seed)*100+70+int64(i))
+	}
+	rangeCoverage(res, "Sample", 1<<40, 1, 2000, int64(env.Seed)*100+90)
+	rangeCoverage(res, "Sample", 1<<34, 5, 400, int64(env.Seed)*100+91)
 	shuffleAllPerms(res, "Shuffle", 3, 600, int64(env.Seed))
 	shuffleAllPerms(res, "RShuffle", 3, 600, int64(env.Seed)+1)
 	shuffleAllPerms(res, "Shuffle", 4, 2400, int64(env.Seed)+2)
